@@ -1057,6 +1057,9 @@ func Packetise(stream []byte, cuts []int, typ byte, ch uint16) []Packet {
 	prev := 0
 	bounds := append(append([]int{}, cuts...), len(stream))
 	for i, c := range bounds {
+		if c-prev > 65535-8 {
+			panic("refcodec: packet body does not fit the 16-bit header length")
+		}
 		p := Packet{Type: typ, Channel: ch, Body: append([]byte{}, stream[prev:c]...)}
 		if i == len(bounds)-1 {
 			p.Status = StatEOM
